@@ -665,11 +665,18 @@ class Driver:
             tree, spec = self.ccg_tree(depth)
             return {"op": "tree", "tree": tree, "cat_spec": spec}
         d, m = cfg["type_depth"], cfg["type_len"]
-        return {"op": "translate", "kind": gen.choice(["FA", "BA", "FC", "BC", "FX", "BX", "Curry", "CurryL",
-                                                        "boxes", "api"]),
-                "a": gen_bty_bounded(gen, d, m), "b": gen_bty_bounded(gen, d, m),
-                "c": gen_bty_bounded(gen, d, m),
-                "which": gen.randint(0, 1), "pre": gen.random() < 0.3}
+        op = {"op": "translate", "kind": gen.choice(["FA", "BA", "FC", "BC", "FX", "BX", "Curry", "CurryL",
+                                                      "boxes", "api"]),
+              "a": gen_bty_bounded(gen, d, m), "b": gen_bty_bounded(gen, d, m),
+              "c": gen_bty_bounded(gen, d, m),
+              "which": gen.randint(0, 1), "pre": gen.random() < 0.3}
+        if op["kind"] in ("Curry", "CurryL") and gen.random() < 0.2:
+            # currying wires that unfold to no rigid wire at all: a slash type with two empty sides
+            # (one biclosed object, image Ty()), or no object (n_wires = 0)
+            empty = ["tensor", []]
+            op["b" if op["kind"] == "Curry" else "a"] = gen.choice([["over", empty, empty], ["under", empty, empty],
+                                                                     empty])
+        return op
 
     def next_cfg(self, world):
         sched, gen, fault, cfg = self.s["sched"], self.s["gen"], self.s["fault"], self.cfg
@@ -763,7 +770,7 @@ def shrink_op(op):
                 cand = dict(op)
                 cand[key] = ["ty", "x"]
                 yield cand
-                if op[key][0] == "tensor":
+                if op[key][0] == "tensor" and op[key][1]:
                     cand = dict(op)
                     cand[key] = op[key][1][0]
                     yield cand
